@@ -105,6 +105,17 @@ def schedules(fam):
         out.append(SC(fam, "limit256", {"t": Mo(z=P("1"))},
                       [opn("c1")] + [sb] * 3 + [Q] + [sb] * 253 + [Q, sb, sb, Q, unsub("c1", "t", 257), Q, unsub("c1", "t", 255), Q,
                                                                        sb, Q, unsub("c1", "t", 2), Q, get("c1", "t"), Q]))
+    if fam.startswith("thr-reset"):
+        # many connections on one resource, access reset, answers newest first (the shape of issue #217)
+        cs = ["c%d" % i for i in range(1, 9)]
+        steps = []
+        for c in cs:
+            steps += [opn(c), dict(sub(c, "e"), settle=True)]
+        steps += [Q, {"op": "reset", "res": [">"], "acc": [">"], "settle": True}]
+        steps += [{"op": "reply", "t": "", "pick": 7 - i, "settle": True} for i in range(8)] + [Q,
+                  {"op": "reset", "acc": ["e"], "settle": True}, {"op": "reset", "acc": ["e"], "settle": True}]
+        steps += [{"op": "reply", "t": "access", "pick": 3, "out": "deny", "settle": True}] * 4 + [Q]
+        out.append(S(fam, "many", steps))
     if fam == "cache":
         out.append(S(fam, "resub", [opn("c1"), sub("c1", "a"), Q, unsub("c1", "a"), Q, {"op": "time", "ms": 3000},
                                     sub("c1", "a"), Q, unsub("c1", "a"), Q, {"op": "time", "ms": 6000}, Q, sub("c1", "a"), Q]))
